@@ -488,6 +488,14 @@ def r05_6(ck):
     from . import c10
     c10.r10_2(ck)
     c10.r10_3(ck)
+    c10.r10_10(ck)
+    for o in ck.obligations:
+        if o['rule'] == 'R10.10':
+            o['rule'] = 'R05.6'
+    for v in ck.violations:
+        if v.rule == 'R10.10':
+            v.rule = 'R05.6'
+    ck.rules.pop('R10.10', None)
     for o in ck.obligations:
         if o['rule'] in ('R10.2', 'R10.3'):
             o['rule'] = 'R05.6'
